@@ -276,6 +276,13 @@ func (ms *MatrixSetup) UnmarshalOrdered(o any) error {
 	default:
 		return fmt.Errorf("unsupported src type for MatrixSetup: %T", o)
 	}
+
+	// A setup with no dimensions is written as `setup: null` in JSON and as
+	// `setup: {}` in YAML, whether it was nil or empty. Settle on nil, so that
+	// a matrix (and hence its signature) is the same after it is read back.
+	if len(*ms) == 0 {
+		*ms = nil
+	}
 	return nil
 }
 
